@@ -421,11 +421,16 @@ pub fn code_if(push_state: &mut PushState, _instruction_cache: &InstructionCache
 pub fn code_insert(push_state: &mut PushState, _instruction_cache: &InstructionCache) {
     if let Some(sub_idx) = push_state.int_stack.pop() {
         if let Some(code_to_be_inserted) = push_state.code_stack.copy(1) {
-            let _ = Item::insert(
-                push_state.code_stack.get_mut(0).unwrap(),
-                &code_to_be_inserted,
-                sub_idx as usize,
-            );
+            if sub_idx == 0 {
+                // Index 0 is the entire piece of code
+                let _ = push_state.code_stack.replace(0, code_to_be_inserted);
+            } else {
+                let _ = Item::insert(
+                    push_state.code_stack.get_mut(0).unwrap(),
+                    &code_to_be_inserted,
+                    sub_idx as usize,
+                );
+            }
         }
     }
 }
